@@ -244,7 +244,12 @@ func changeOneField(codec string, p *videoParams, pick int) *videoParams {
 		case 0:
 			q.vp9Range = !p.vp9Range
 		case 1:
-			q.vp9W, q.vp9H = p.vp9H+16, p.vp9W // only the frame size
+			// only the frame size, and only one of its two dimensions
+			if pick%8 < 4 {
+				q.vp9W = p.vp9W + 16
+			} else {
+				q.vp9H = p.vp9H + 16
+			}
 		case 2:
 			// 8-bit 4:2:0 <-> 8-bit 4:2:2 (profile and chroma subsampling move together by definition)
 			if p.vp9Profile == 1 {
